@@ -824,18 +824,43 @@ func c04runResponder(t *testing.T, ops []string, o *Out) {
 			ssrc, ok := c04num(m, "ssrc", 1<<32)
 			rs, ok2 := c04num(m, "rssrc", 1<<32)
 			rp, ok3 := c04num(m, "rpt", 256)
-			fb, ok4 := c04bool(m, "fb")
+			// the stream's RTCPFeedback: `fbl=<code>` (any list over the alphabet of streaminfo_test.go, in any
+			// order) or the two fixed lists `fb=0|1`
+			var fbl []interceptor.RTCPFeedback
+			ok4 := false
+			if cs, has := m["fbl"]; has {
+				if code, okc := c04num(m, "fbl", 1000000000); okc && cs != "" {
+					fbl, ok4 = feedbackOfCode(int(code))
+				}
+			} else if fb, okb := c04bool(m, "fb"); okb {
+				ok4 = true
+				if fb {
+					fbl = []interceptor.RTCPFeedback{{Type: "goog-remb"}, {Type: "nack", Parameter: ""}}
+				} else {
+					fbl = []interceptor.RTCPFeedback{{Type: "nack", Parameter: "pli"}}
+				}
+			}
 			if !ok || !ok2 || !ok3 || !ok4 {
 				o.P("bad-op")
 				continue
 			}
-			info := &interceptor.StreamInfo{SSRC: uint32(ssrc), SSRCRetransmission: uint32(rs), PayloadTypeRetransmission: uint8(rp)}
-			if fb {
-				info.RTCPFeedback = []interceptor.RTCPFeedback{{Type: "goog-remb"}, {Type: "nack", Parameter: ""}}
-			} else {
-				info.RTCPFeedback = []interceptor.RTCPFeedback{{Type: "nack", Parameter: "pli"}}
-			}
+			info := &interceptor.StreamInfo{SSRC: uint32(ssrc), SSRCRetransmission: uint32(rs), PayloadTypeRetransmission: uint8(rp),
+				RTCPFeedback: fbl}
+			before := *info
+			before.RTCPFeedback = append([]interceptor.RTCPFeedback(nil), fbl...)
 			writers = append(writers, icpt.BindLocalStream(info, &c04bottom{h, len(writers)}))
+			// the StreamInfo is the caller's: Bind must not edit it
+			if info.SSRC != before.SSRC || info.SSRCRetransmission != before.SSRCRetransmission ||
+				info.PayloadTypeRetransmission != before.PayloadTypeRetransmission || len(info.RTCPFeedback) != len(before.RTCPFeedback) {
+				o.P("streaminfo-modified")
+			} else {
+				for i := range before.RTCPFeedback {
+					if info.RTCPFeedback[i] != before.RTCPFeedback[i] {
+						o.P("streaminfo-modified")
+						break
+					}
+				}
+			}
 		case name == "write" && icpt != nil:
 			w, ok := c04num(m, "w", 1<<31)
 			hdr := c04parseHdr(m)
@@ -1007,7 +1032,12 @@ func init() {
 				if rtx {
 					rs, rp = ssrc+1000, 97
 				}
-				ops = append(ops, fmt.Sprintf("bind ssrc=%d rssrc=%d rpt=%d fb=%d", ssrc, rs, rp, c04b(fb)))
+				if r.Chance(1, 4) {
+					ops = append(ops, fmt.Sprintf("bind ssrc=%d rssrc=%d rpt=%d fb=%d", ssrc, rs, rp, c04b(fb)))
+				} else {
+					// the feedback list in any order, with near-duplicates of the plain `nack` entry before/after it
+					ops = append(ops, fmt.Sprintf("bind ssrc=%d rssrc=%d rpt=%d fbl=%d", ssrc, rs, rp, genFeedbackCode(r, fb)))
+				}
 				g := &c04seqGen{cl: "mixed", size: size, cur: r.Intn(65536)}
 				switch cl {
 				case "inorder", "gaps", "late", "dup":
